@@ -9,10 +9,10 @@ C16 — "the population size stays within what the template's parameters prescri
   (`hi = none`: no upper bound) — the same pass boundaries at which the run-level check reads the size.
 * `<template>_v<i>_size`: the verdict, evaluated by the kernel on the tree (with parameters) that the real
   constructor built in THIS run (`Generated/TemplatesSized.lean`, regenerated from `/repo` on every check), for
-  the bound `hcommon::templates::prescribed_size(template, i)`: `true` for 19 templates (chemical reaction
-  optimisation: at least 1, no upper bound); `false` for the two iterated-local-search templates, whose loop
-  body leaves one more population on the stack per pass, so that no stack of intervals is invariant (the recorded
-  defect `leak+1`; the analysis is incomplete there, it never answers `true` wrongly).
+  the bound `hcommon::templates::prescribed_size(template, i)`: `true` for all 21 templates (chemical reaction
+  optimisation: at least 1, no upper bound; invasive weed: between the initial and the maximal size).  A loop body
+  that changed the number of populations would have no invariant (`leaking_loop_refused`; the analysis is
+  incomplete there, it never answers `true` wrongly).  For ALL parameter values (19 templates): `Props/C16Param.lean`.
 -/
 import MahfModel.Proofs.C16Size
 import MahfModel.Generated.TemplatesSized
